@@ -38,6 +38,7 @@ class DiamondGroove(GenericElongationGroove):
 
         if usable_width and tip_depth and not tip_angle:
             alpha = np.arctan(tip_depth / (usable_width / 2))
+            tip_angle = np.pi - 2 * alpha
 
         elif usable_width and tip_angle and not tip_depth:
             alpha = np.pi / 2 - tip_angle / 2
